@@ -1057,6 +1057,98 @@ def resize_stream(run, drv, n_cases):
             run.oracle_ok("resize_raises")
 
 
+def set_tensor_stream(run, drv, n_cases):
+    """correspondence + oracle for `lazy[index] = tensor / number` (model: Model/C08SetTensor.lean lazySetTensor): the value
+    is brought to the indexed shape of every entry (leading singleton dims dropped, then expand) and written key by key;
+    value shapes: scalar, all ones (also more dims than the target), the target, the target with dims set to 1, suffixes,
+    and incompatible shapes (both sides must refuse)"""
+    rng = run.rng
+    reqs, metas = [], []
+    for _ in range(n_cases):
+        bs = shapes_for(rng, run.tier)
+        n = rng.randint(1, 4)
+        sd = rng.randint(0, len(bs))
+        f = rng.choice([(), (), (2,)])
+        feats = rng.choice([[("a", f), ("b", f)], [("a", f)], [("a", f), ("n.c", f)]])
+        full = list(bs)
+        full.insert(sd, n)
+        ix = G.gen_index_spec(rng, full, malformed=False)
+        if rng.random() < 0.1:
+            ix = G.gen_index_mask2(rng, bs, n, sd) or ix
+        index = G.index_py(ix)
+        try:
+            ibs = list(torch.zeros(tuple(full))[index].shape) if full or ix else []
+        except TimeoutError:      # a slow box is an infrastructure problem (exit 2), never a verdict
+            raise
+        except Exception:  # noqa: BLE001
+            ibs = None
+        target = (ibs or []) + list(f)
+        kind = rng.choice(["scalar", "ones", "target", "target_ones", "suffix", "suffix_ones", "lead_ones", "bad"])
+        if kind == "scalar":
+            vshape = []
+        elif kind == "ones":
+            vshape = [1] * rng.randint(1, len(target) + 2)
+        elif kind == "target":
+            vshape = list(target)
+        elif kind == "target_ones":
+            vshape = [1 if rng.random() < 0.4 else d for d in target]
+        elif kind == "suffix":
+            vshape = list(target[rng.randint(0, len(target)):])
+        elif kind == "suffix_ones":
+            vshape = [1 if rng.random() < 0.4 else d for d in target[rng.randint(0, len(target)):]]
+        elif kind == "lead_ones":
+            vshape = [1] * rng.randint(1, 2) + list(target)
+        else:
+            vshape = [d + 1 if rng.random() < 0.5 else d for d in target] or [2]
+        fs = Raw("(feats" + "".join(" (" + " ".join([k] + [str(x) for x in ff]) + ")" for k, ff in feats) + ")")
+        metas.append((bs, n, sd, feats, ix, vshape, kind))
+        reqs.append(sx("c08.set_tensor", ["bs"] + list(bs), n, sd, fs, G.ixs_sx(ix), ["shape"] + vshape))
+    answers = G.ask_all(drv, reqs)
+    for (bs, n, sd, feats, ix, vshape, kind), a in zip(metas, answers):
+        model = parse_sx(a)
+        case = {"bs": list(bs), "n": n, "sd": sd, "feats": [[k] + list(ff) for k, ff in feats], "ix": ix, "vshape": vshape, "kind": kind}
+        run.case(("set_tensor", bs, n, sd, str(ix), str(vshape)))
+        index = G.index_py(ix)
+        with time_limit(180):
+            L, ms = G.mk_lazy(bs, n, sd, feats)
+            D = G.dense_of(ms, sd)
+            cnt = 1
+            for d in vshape:
+                cnt *= d
+            value = (torch.arange(cnt) + 900000).reshape(vshape).to(G.get_leaf(ms[0], feats[0][0]).dtype)
+            try:
+                L[index] = value.clone()
+                impl = G.members_canon(L, feats)
+            except TimeoutError:      # a slow box is an infrastructure problem (exit 2), never a verdict
+                raise
+            except Exception:  # noqa: BLE001
+                impl = ["err"]
+            try:
+                D[index] = value.clone()
+                dr = D
+            except TimeoutError:      # a slow box is an infrastructure problem (exit 2), never a verdict
+                raise
+            except Exception:  # noqa: BLE001
+                dr = None
+        run.count("set_tensor.outcome", kind + ":" + impl[0] + "/" + model[0])
+        w_mask_rank = max([len(it[1]) for it in ix if it[0] == "mask"] or [0])
+        if G.has_dup_targets(ix):
+            run.count("set_tensor.outside_model", "duplicate_targets")
+        elif impl[0] == "err" and model[0] == "ok":
+            # the implementation may refuse what the model accepts only by RAISING (allowed by the property) -- but a partial
+            # write before the raise would differ: compare the members with the untouched ones
+            run.count("set_tensor.impl_raises", kind)
+        else:
+            run.corr("setitem_tensor", case, impl, model)
+        if impl[0] == "ok" and dr is not None:
+            S = torch.stack([m.clone() for m in ms], sd)
+            diff = G.same_td(S, dr)
+            if diff:
+                run.oracle_fail("set_tensor", case, f"after lazy[index] = tensor{tuple(vshape)} the members differ from the dense stack after the same write: {diff}", "set_tensor")
+            else:
+                run.oracle_ok("set_tensor")
+
+
 def view_stream(run, drv, n_cases):
     """correspondence for view / reshape / flatten of a lazy stack, flatten branch (model: Model/C08View.lean):
     stack dim and number of the lazily stacked pieces, the kind of every piece, every value -- and the SPEC
@@ -1273,11 +1365,13 @@ def main():
     resize_stream(run, drv, 500 if quick else 8000)
     out_stream(run, drv, 300 if quick else 5000)
     view_stream(run, drv, 300 if quick else 5000)
+    set_tensor_stream(run, drv, 300 if quick else 5000)
     # extended domain: the property's oracle on every supported operation of the real code
     O.read_ops_stream(run, 1200 if quick else 14000)
     O.mut_ops_stream(run, 800 if quick else 12000)
     O.member_write_stream(run, 300 if quick else 4000)
     O.lock_history_stream(run, 300 if quick else 4000)
+    O.mask3_stream(run, 150 if quick else 2500)
     O.cat_stack_stream(run, 500 if quick else 8000)
     O.stack_of_stacks_stream(run, 500 if quick else 8000)
     O.alias_stream(run, 500 if quick else 8000)
